@@ -340,6 +340,7 @@ pub fn run(ctx: &Ctx) -> Report {
             };
             acc.sample(rank, || format!("{}: {}", fam[t].name(), crate::util::trunc(&e.to_string(), 80)));
             for m in mutants(&e) {
+                crate::par::heartbeat();
                 if thorough || rank % 8 == 0 {
                     for (t2, r2) in fam.iter().enumerate() {
                         judge(acc, "mutated-encodings", rank, &**r2, &m, &|| json!({"type": t2, "src_type": t, "i": i, "value": m.to_string(), "thorough": thorough}));
